@@ -1012,6 +1012,174 @@ func (g *gen) tree(depth, width int) []string {
 	}
 }
 
+// ---- size-like dimensions: wide groups, deep nesting, long scopes, else chains
+
+// longScope: a supported scope array with many repeated elements.
+func (g *gen) longScope() string {
+	n := g.r.Range(5, 40)
+	b := make([]byte, n)
+	only := g.r.Intn(6) // 0: only q, 1: only s, else mixed
+	for i := range b {
+		switch {
+		case only == 0:
+			b[i] = 'q'
+		case only == 1:
+			b[i] = 's'
+		default:
+			b[i] = "qs"[g.r.Intn(2)]
+		}
+	}
+	return string(b)
+}
+
+func (g *gen) bigScope() string {
+	switch k := g.r.Intn(10); {
+	case k < 6:
+		return "-"
+	case k < 8:
+		return g.longScope()
+	default:
+		return g.scope()
+	}
+}
+
+// wideLeaf: probes implementing both kinds / one kind, mixed; errP per-mille erroring.
+func (g *gen) wideLeaf(errP int) string {
+	g.nextID++
+	caps, sc := "b", "-"
+	switch g.r.Intn(4) {
+	case 0:
+		caps = "q"
+		sc = []string{"-", "q", "n", "qq"}[g.r.Intn(4)]
+	case 1:
+		caps = "s"
+		sc = []string{"-", "s", "n", "ss"}[g.r.Intn(4)]
+	default:
+		sc = []string{"-", "-", "-", "qs", "q", "s", "sq"}[g.r.Intn(7)]
+	}
+	errs := "0"
+	if g.r.Intn(1000) < errP {
+		errs = []string{"q", "s", "b"}[g.r.Intn(3)]
+	}
+	return fmt.Sprintf("L%d.%s.%s.%s", g.nextID, caps, errs, sc)
+}
+
+// wideGroup: a priority or fifo group of n children with many priority ties
+// (2-5 distinct priorities interleaved).
+func (g *gen) wideGroup(prio bool, n int, sub bool) []string {
+	g.started = true
+	var out []string
+	agg := g.r.Intn(3)
+	errP := 1000 / (2*n + 1)
+	if prio {
+		out = []string{"R" + g.bigScope()}
+	} else {
+		out = []string{fmt.Sprintf("F%d.%s", agg, g.bigScope())}
+		if agg == 1 {
+			errP = 150
+		}
+	}
+	nprio, base := g.r.Range(2, 5), g.r.Range(-2, 3)
+	for i := 0; i < n; i++ {
+		if prio && !g.r.Chance(1, 20) {
+			out = append(out, "@"+strconv.Itoa(base+g.r.Intn(nprio)))
+		}
+		if sub && g.r.Chance(1, 12) {
+			out = append(out, g.tree(2, 3)...)
+		} else {
+			out = append(out, g.wideLeaf(errP))
+		}
+	}
+	return append(out, ")")
+}
+
+// wrapped: the wide group at top level or nested inside other nodes
+func (g *gen) wrapped(inner []string) []string {
+	g.started = true
+	switch g.r.Intn(6) {
+	case 0:
+		out := append([]string{fmt.Sprintf("F%d.%s", g.r.Intn(3), g.bigScope()), g.wideLeaf(0)}, inner...)
+		return append(out, g.wideLeaf(0), ")")
+	case 1:
+		out := append([]string{"R" + g.bigScope(), "@1", g.wideLeaf(0), "@1"}, inner...)
+		return append(out, "@1", g.wideLeaf(0), "@2", g.wideLeaf(0), ")")
+	case 2:
+		g.nextTag++
+		out := append([]string{fmt.Sprintf("f%c%d.%d.%s", "huqmc"[g.r.Intn(5)], g.nextTag, g.r.Intn(8), g.bigScope())}, inner...)
+		return append(out, "ELSE", g.wideLeaf(0), ")")
+	case 3:
+		g.nextTag++
+		out := []string{fmt.Sprintf("f%c%d.%d.%s", "huqmc"[g.r.Intn(5)], g.nextTag, g.r.Intn(8), g.bigScope()), g.wideLeaf(0), "ELSE"}
+		return append(append(out, inner...), ")")
+	}
+	return inner
+}
+
+// deep: a chain of d nested groups / filters (the chain continuing in the
+// modifier or in the else branch), leaves hanging off at every level.
+func (g *gen) deep(d int) []string {
+	g.started = true
+	if d == 0 {
+		return []string{g.wideLeaf(100)}
+	}
+	switch g.r.Intn(5) {
+	case 0:
+		out := []string{fmt.Sprintf("F%d.%s", g.r.Intn(3), g.bigScope()), g.wideLeaf(50)}
+		out = append(out, g.deep(d-1)...)
+		return append(out, g.wideLeaf(50), ")")
+	case 1:
+		out := []string{"R" + g.bigScope(), "@" + strconv.Itoa(g.r.Intn(3)), g.wideLeaf(50), "@" + strconv.Itoa(g.r.Intn(3))}
+		out = append(out, g.deep(d-1)...)
+		return append(out, "@"+strconv.Itoa(g.r.Intn(3)), g.wideLeaf(50), ")")
+	case 2:
+		g.nextTag++
+		out := []string{fmt.Sprintf("f%c%d.%d.%s", "huqmc"[g.r.Intn(5)], g.nextTag, g.r.Intn(8), g.bigScope()), g.wideLeaf(50), "ELSE"}
+		return append(append(out, g.deep(d-1)...), ")")
+	default:
+		g.nextTag++
+		out := []string{fmt.Sprintf("f%c%d.%d.%s", "huqmc"[g.r.Intn(5)], g.nextTag, g.r.Intn(8), g.bigScope())}
+		out = append(out, g.deep(d-1)...)
+		if g.r.Bool() {
+			out = append(out, "ELSE", g.wideLeaf(50))
+		}
+		return append(out, ")")
+	}
+}
+
+// elseChain: if c1 then L1 else if c2 then L2 else ... (n filters)
+func (g *gen) elseChain(n int) []string {
+	g.started = true
+	var out []string
+	for i := 0; i < n; i++ {
+		g.nextTag++
+		out = append(out, fmt.Sprintf("f%c%d.%d.%s", "hqc"[g.r.Intn(3)], g.nextTag, g.r.Intn(2), []string{"-", "-", "qs", g.longScope()}[g.r.Intn(4)]),
+			g.wideLeaf(30), "ELSE")
+	}
+	out = append(out, g.wideLeaf(0))
+	for i := 0; i < n; i++ {
+		out = append(out, ")")
+	}
+	return out
+}
+
+// sparseMsg: few conditions true so that long else chains are walked far
+func (g *gen) sparseMsg() []string {
+	kind := "MSGq"
+	if g.r.Bool() {
+		kind = "MSGs"
+	}
+	out := []string{kind}
+	first := g.r.Range(1, g.nextTag+1)
+	for t := 1; t <= g.nextTag; t++ {
+		if t == first {
+			out = append(out, "h"+strconv.Itoa(t))
+		} else if g.r.Chance(1, 3) {
+			out = append(out, "g"+strconv.Itoa(t))
+		}
+	}
+	return out
+}
+
 func (g *gen) msg() []string {
 	kind := "MSGq"
 	if g.r.Bool() {
@@ -1089,7 +1257,11 @@ func treeStats(cfg *hx.Config, toks []string) {
 			depth--
 		}
 	}
-	cfg.Count(fmt.Sprintf("tree_depth=%d", maxd))
+	if maxd > 12 {
+		cfg.Count(fmt.Sprintf("tree_depth>=%d", maxd/8*8))
+	} else {
+		cfg.Count(fmt.Sprintf("tree_depth=%d", maxd))
+	}
 	b := nodes
 	switch {
 	case nodes > 32:
@@ -1325,5 +1497,98 @@ func main() {
 		}
 		in = append(in, g.msg()...)
 		emit("concurrent", in)
+	}
+
+	// 6. size: wide groups.  6a deterministic family: n children, priorities
+	// (i*7)%m interleaved, kinds mixed, for widths around every small-size
+	// threshold a sort / slice implementation might have.
+	widths := []int{11, 12, 13, 14, 16, 17, 24, 31, 32, 33, 40, 64}
+	if cfg.Thorough() {
+		widths = append(widths, 65, 100, 127, 128, 129, 200, 256, 300)
+	}
+	for _, w := range widths {
+		for m := 2; m <= 5; m++ {
+			for _, grp := range []string{"R-", "F1.-"} {
+				in := []string{"DIRECT", "POST", grp}
+				for i := 0; i < w; i++ {
+					if grp[0] == 'R' {
+						in = append(in, "@"+strconv.Itoa((i*7)%m))
+					}
+					caps := "b"
+					if m%2 == 1 {
+						caps = "bbqs"[i%4 : i%4+1]
+					}
+					e := "0"
+					if grp[0] == 'F' && i%9 == 4 {
+						e = "b"
+					}
+					in = append(in, fmt.Sprintf("L%d.%s.%s.-", i+1, caps, e))
+				}
+				in = append(in, ")", "MSGq", "MSGs")
+				emit("size-wide-family", in)
+			}
+		}
+	}
+	// 6b random wide groups, top level and nested
+	for k := 0; k < 80*scale; k++ {
+		g := &gen{r: rng.Fork(), cfg: cfg}
+		n := g.r.Range(13, 64)
+		if cfg.Thorough() && g.r.Chance(1, 6) {
+			n = g.r.Range(65, 300)
+		}
+		tr := g.wrapped(g.wideGroup(k%3 != 2, n, g.r.Chance(1, 3)))
+		treeStats(cfg, tr)
+		cfg.Count(fmt.Sprintf("group_width>=%d", n/16*16))
+		in := append([]string{"DIRECT", "POST"}, tr...)
+		for i := 0; i < 3; i++ {
+			in = append(in, g.msg()...)
+		}
+		emit("size-wide", in)
+	}
+	// 6c deep nesting (8-12; thorough up to 30), long scope arrays
+	for k := 0; k < 60*scale; k++ {
+		g := &gen{r: rng.Fork(), cfg: cfg}
+		d := g.r.Range(8, 12)
+		if cfg.Thorough() && g.r.Chance(1, 6) {
+			d = g.r.Range(13, 30)
+		}
+		tr := g.deep(d)
+		treeStats(cfg, tr)
+		in := append([]string{"DIRECT", "POST"}, tr...)
+		for i := 0; i < 4; i++ {
+			in = append(in, g.msg()...)
+		}
+		emit("size-deep", in)
+	}
+	// 6d many else-branches
+	for k := 0; k < 40*scale; k++ {
+		g := &gen{r: rng.Fork(), cfg: cfg}
+		n := g.r.Range(8, 24)
+		if cfg.Thorough() && g.r.Chance(1, 6) {
+			n = g.r.Range(25, 80)
+		}
+		tr := g.elseChain(n)
+		treeStats(cfg, tr)
+		in := append([]string{"DIRECT", "POST"}, tr...)
+		for i := 0; i < 4; i++ {
+			in = append(in, g.sparseMsg()...)
+		}
+		emit("size-else-chain", in)
+	}
+	// 6e wide / deep configurations through the reconfiguration handler
+	for k := 0; k < 30*scale; k++ {
+		g := &gen{r: rng.Fork(), cfg: cfg}
+		in := []string{"HTTP"}
+		for i := g.r.Range(2, 3); i > 0; i-- {
+			in = append(in, "POST")
+			if g.r.Bool() {
+				in = append(in, g.wideGroup(g.r.Bool(), g.r.Range(13, 48), false)...)
+			} else {
+				in = append(in, g.deep(g.r.Range(6, 10))...)
+			}
+			in = append(in, g.msg()...)
+			in = append(in, g.msg()...)
+		}
+		emit("size-reconf", in)
 	}
 }
